@@ -145,6 +145,41 @@ def copy_spine(v, depth=60):
     return v
 
 
+CELL_ADT = "parser::pair::GenericPair"
+
+
+def has_cells(v, depth=40):
+    """does the value hold cons cells of the crate's list type (outside reference-counted storage)?"""
+    if depth <= 0:
+        return False
+    if isinstance(v, Enum):
+        adt = getattr(v, "adt", None) or ""
+        if adt == CELL_ADT:
+            return True
+        if adt.endswith("ValueReference"):
+            return False                       # Rc<..> storage: shared by clone
+        return any(has_cells(x, depth - 1) for x in v.fields)
+    if type(v) is list:
+        return any(has_cells(x, depth - 1) for x in v)
+    return False
+
+
+def copy_cells(v, depth=60):
+    """a clone that does not share cons cells with the original (they are taken apart in place by the consuming iterators): every
+    Enum / list on a path to a cell is copied, everything else — leaves, sub-structures without cells, Rc storage — is shared"""
+    if depth <= 0 or not has_cells(v):
+        return v
+    if isinstance(v, Enum):
+        e = Enum(v.variant, [copy_cells(x, depth - 1) for x in v.fields])
+        for k in ("name", "adt", "gmap"):
+            if hasattr(v, k):
+                setattr(e, k, getattr(v, k))
+        return e
+    if type(v) is list:
+        return [copy_cells(x, depth - 1) for x in v]
+    return v
+
+
 def plain_of(x):
     """the concrete string / integer an abstract value stands for, or the value itself"""
     x = absint.deref(x)
@@ -207,6 +242,17 @@ class Machine:
             if not self.stack:
                 absint.POINTERS = False
                 absint.FN_CONST = None
+
+    def run_tagged(self, h, raw, generics):
+        """run a crate function; a struct / enum of the crate it returns remembers what the function's type parameters stood for, so
+        that a trait method called on it later — `next` of an iterator it created — can be instantiated the same way"""
+        r = self.run(h, raw, generics=generics)
+        gp = getattr(h, "generic_params", None) or []
+        if isinstance(r, Enum) and getattr(r, "adt", None) and generics and len(gp) == len(generics) and not hasattr(r, "gmap"):
+            m_ = {k_: v_ for k_, v_ in zip(gp, generics) if isinstance(v_, str) and "::" in v_}
+            if m_:
+                r.gmap = m_
+        return r
 
     def subst_generics(self, gens):
         """the generic arguments of a call with the enclosing function's own parameters replaced by what it was instantiated with"""
@@ -395,7 +441,7 @@ class Machine:
             # takes precedence over the std pass-through models (`From` / `Into` / `Deref` ...)
             h0 = self.resolve_by_type(c, tt)
             if h0 is not None and self.inline(c):
-                return self.run(h0, raw, generics=self.subst_generics((tt.get("fn") or {}).get("generics")))
+                return self.run_tagged(h0, raw, self.subst_generics((tt.get("fn") or {}).get("generics")))
         if c.rsplit("::", 1)[-1] in ("lt", "le", "gt", "ge") and c.rsplit("::", 1)[0].endswith("cmp::PartialOrd") and len(raw) == 2:
             # the provided methods of PartialOrd on a type whose partial_cmp is written in the crate: that partial_cmp decides
             h_pc = self.resolve_by_type(c.rsplit("::", 1)[0] + "::partial_cmp", tt)
@@ -438,6 +484,16 @@ class Machine:
         if r is not NOT:
             return r
         h = (self.fb.by_call(tt, self.crate) or self.fb.by_path(c, self.crate)) if c else None
+        if h is None and c.startswith("ruschm::") and self.crate != "lib":
+            # the binary calling into the library crate: followed there (lookups inside it are the library's)
+            h_lib = self.fb.by_path(c[len("ruschm::"):], "lib") or self.fb.by_path(mir.norm(c[len("ruschm::"):]), "lib")
+            if h_lib is not None and self.inline(c):
+                saved_crate = self.crate
+                self.crate = "lib"
+                try:
+                    return self.run_tagged(h_lib, raw, self.subst_generics((tt.get("fn") or {}).get("generics")))
+                finally:
+                    self.crate = saved_crate
         if h is None and c and (tt.get("fn") or {}).get("resolved") is None and raw:
             # a trait method called on a generic type: instantiate the type with what the enclosing calls were instantiated with
             h = self.resolve_by_type(c, tt)
@@ -456,7 +512,7 @@ class Machine:
                 if len(cands) == 1:
                     h = cands[0]
         if h is not None and self.inline(c):
-            return self.run(h, raw, generics=self.subst_generics((tt.get("fn") or {}).get("generics")))
+            return self.run_tagged(h, raw, self.subst_generics((tt.get("fn") or {}).get("generics")))
         if h is None and c and any(isinstance(x, Closure) for x in a):
             # an external call we have no model for that is handed a closure: the closure would have run (with whatever it
             # captured); pretending it did not could leave a wrong state behind
@@ -734,6 +790,8 @@ class Machine:
             g0 = " ".join(str(x) for x in ((tt.get("fn") or {}).get("generics") or []))
             if "pair::GenericPair<" in g0 and (g0.startswith("parser::pair::GenericPair<") or g0.startswith("std::boxed::Box<parser::pair::GenericPair<")):
                 return copy_spine(a0)
+            if "rc::Rc" not in c and "rc::Rc<" not in g0[:20] and has_cells(a0):
+                return copy_cells(a0)          # (a derived Clone of something that holds a list: the cells are not shared)
         if end == "to_string" and "ToString" in c and isinstance(a0, (Enum, list)) and tt is not None:
             gens = [str(x) for x in (self.subst_generics((tt.get("fn") or {}).get("generics")) or []) if not str(x).startswith("'")]
             ty = gens[0].replace("&", "").strip() if gens else ""
@@ -883,6 +941,27 @@ class Machine:
                     i = a0.find(pat)
                     return some([a0[:i], a0[i + len(pat):]]) if i >= 0 else none()
                 return UNKNOWN
+            if end == "lines":
+                parts_ = a0.split("\n")
+                if parts_ and parts_[-1] == "":
+                    parts_.pop()
+                return Iter([p_[:-1] if p_.endswith("\r") else p_ for p_ in parts_])
+            if end in ("split", "split_terminator", "split_inclusive", "rsplit") and len(a) > 1:
+                pat = chr(a[1]) if isinstance(a[1], int) and not isinstance(a[1], bool) else a[1]
+                if isinstance(pat, str) and pat:
+                    parts_ = a0.split(pat)
+                    if end == "split_terminator" and parts_ and parts_[-1] == "":
+                        parts_.pop()
+                    if end == "split_inclusive":
+                        parts_ = [p_ + pat for p_ in parts_[:-1]] + ([parts_[-1]] if parts_[-1] else [])
+                    if end == "rsplit":
+                        parts_ = list(reversed(parts_))
+                    return Iter(parts_)
+                return UNKNOWN
+            if end == "split_whitespace":
+                return Iter(a0.split())
+            if end == "chars":
+                return Iter([ord(ch_) for ch_ in a0])
             if end == "is_empty":
                 return a0 == ""
             if end == "len":
@@ -1191,6 +1270,34 @@ class Machine:
             if isinstance(a0, list):
                 raise Stuck("Vec::remove at an unknown / out-of-range index")
             return UNKNOWN
+        if m("Vec::swap_remove", "SmallVec::swap_remove"):
+            if isinstance(a0, list) and isinstance(a[1], int) and not isinstance(a[1], bool) and 0 <= a[1] < len(a0):
+                x_ = a0[a[1]]
+                last_ = a0.pop()
+                if a[1] < len(a0):
+                    a0[a[1]] = last_              # the last element takes the freed slot
+                return x_
+            if isinstance(a0, list):
+                raise Stuck("Vec::swap_remove at an unknown / out-of-range index")
+            return UNKNOWN
+        if m("Vec::truncate", "SmallVec::truncate"):
+            if isinstance(a0, list) and isinstance(a[1], int) and not isinstance(a[1], bool):
+                del a0[a[1]:]
+                return []
+            return UNKNOWN
+        if m("Vec::clear", "SmallVec::clear"):
+            if isinstance(a0, list):
+                del a0[:]
+                return []
+            return UNKNOWN
+        if m("<impl [T]>::swap") and isinstance(a0, list) and len(a) == 3 and all(isinstance(x, int) and not isinstance(x, bool) for x in a[1:]):
+            if 0 <= a[1] < len(a0) and 0 <= a[2] < len(a0):
+                a0[a[1]], a0[a[2]] = a0[a[2]], a0[a[1]]
+                return []
+            raise Stuck("slice::swap out of range")
+        if m("<impl [T]>::reverse") and isinstance(a0, list):
+            a0.reverse()
+            return []
         if m("<impl [T]>::sort", "<impl [T]>::sort_unstable"):
             # total order of concrete strings / integers only (Rust's Ord on str is bytewise = Python's order on str for ASCII)
             vals = [plain_of(x) for x in a0] if isinstance(a0, list) else None
@@ -1256,29 +1363,47 @@ class Machine:
                         return UNKNOWN
                 return []
             return UNKNOWN
-        if m("HashMap::entry"):
-            return EntryTok(a0, a[1]) if isinstance(a0, Map) else UNKNOWN
-        if "hash_map::Entry" in c or "map::Entry" in c:
-            if isinstance(a0, EntryTok):
-                k = key_of(a0.key)
+        if m("HashMap::entry", "BTreeMap::entry"):
+            if not isinstance(a0, Map):
+                return UNKNOWN
+            # the Entry enum as it is (code may match on Occupied / Vacant): the payload is the entry token
+            occ = key_of(a[1]) in a0.d
+            e_ = Enum(0 if occ else 1, [EntryTok(a0, a[1])])
+            e_.name, e_.adt = ("Occupied" if occ else "Vacant"), "std::collections::hash_map::Entry"
+            return e_
+        if "hash_map::Entry" in c or "map::Entry" in c or "OccupiedEntry" in c or "VacantEntry" in c or "btree_map::Entry" in c:
+            et = a0.fields[0] if isinstance(a0, Enum) and a0.fields and isinstance(a0.fields[0], EntryTok) else a0
+            if isinstance(et, EntryTok):
+                k = key_of(et.key)
                 if end in ("or_insert", "or_insert_with", "or_default", "or_insert_with_key"):
-                    if k not in a0.map.d:
+                    if k not in et.map.d:
                         if end == "or_insert":
                             v = a[1]
                         elif end == "or_insert_with":
                             v = self.call_value(a[1], [])
                         elif end == "or_insert_with_key":
-                            v = self.call_value(a[1], [a0.key])
+                            v = self.call_value(a[1], [et.key])
                         else:
                             v = UNKNOWN
-                        a0.map.d[k] = (a0.key, v)
-                    return a0.map.d[k][1]
+                        et.map.d[k] = (et.key, v)
+                    return et.map.d[k][1]
                 if end == "and_modify":
-                    if k in a0.map.d:
-                        self.call_value(a[1], [a0.map.d[k][1]])
+                    if k in et.map.d:
+                        self.call_value(a[1], [et.map.d[k][1]])
                     return a0
-                if end == "key":
-                    return a0.key
+                if end in ("key", "into_key"):
+                    return et.key
+                if end in ("get", "get_mut", "into_mut") and k in et.map.d:
+                    return et.map.d[k][1]
+                if end in ("insert", "insert_entry") and len(a) > 1:
+                    old_ = et.map.d.get(k)
+                    et.map.d[k] = (et.key, a[1])
+                    if "VacantEntry" in c or old_ is None:
+                        return a[1] if end == "insert" else a0       # VacantEntry::insert returns &mut V
+                    return old_[1]                                    # OccupiedEntry::insert returns the old value
+                if end in ("remove", "remove_entry") and k in et.map.d:
+                    old_ = et.map.d.pop(k)
+                    return old_[1] if end == "remove" else [old_[0], old_[1]]
             return UNKNOWN
         if m("HashMap::insert"):
             if isinstance(a0, Map):
@@ -1405,7 +1530,9 @@ class Machine:
             r = self.intercept(self, cands[0].name, [it], synth, None)
             if r is not NOT:
                 return r
-        return self.run(cands[0], [it])
+        gm = getattr(it, "gmap", None)
+        gens_ = [gm.get(n_, n_) for n_ in (getattr(cands[0], "generic_params", None) or [])] if gm else None
+        return self.run(cands[0], [it], generics=gens_)
 
     def has_local_next(self, it):
         adt = getattr(it, "adt", None) if isinstance(it, Enum) else None
@@ -1650,9 +1777,24 @@ class Machine:
             import itertools as _it
             return LazyIter(_it.islice(drain(a0), a[1]))
         if end == "zip":
-            o = a[1].rest() if isinstance(a[1], Iter) else (a[1] if isinstance(a[1], list) else None)
-            if o is None:
-                return UNKNOWN
+            # lazy on both sides, the first source asked first (an item of the first source is lost when the second is exhausted:
+            # std's behaviour, and Python's zip has it too)
+            src2 = a[1]
+            if isinstance(src2, Iter):
+                o = drain(src2)
+            elif isinstance(src2, list):
+                o = iter(list(src2))
+            else:
+                mat2 = self.materialize(src2) if isinstance(src2, Enum) else None
+                if mat2 is None and isinstance(src2, Enum) and getattr(src2, "adt", None):
+                    cands2 = [f_ for f_ in self.fb.all(self.crate) if f_.name.endswith("::into_iter") and f_.trait and "IntoIterator" in f_.trait and
+                              f_.self_ty and mir.norm(f_.self_ty).split("<")[0] == src2.adt]
+                    if len(cands2) == 1:
+                        it2 = self.run(cands2[0], [src2])
+                        mat2 = Iter(it2) if isinstance(it2, list) else self.materialize(it2)
+                if mat2 is None:
+                    raise Stuck("zip with a second source that cannot be enumerated (%r)" % (src2,))
+                o = drain(mat2)
             return LazyIter([x, y] for x, y in zip(drain(a0), o))
         if end == "chain":
             o = a[1].rest() if isinstance(a[1], Iter) else (a[1] if isinstance(a[1], list) else None)
